@@ -11,7 +11,7 @@ NOTE = ('theorems are about coq/Model/Rest.v (handlers over the C01 specificatio
         'every status and every decoded body (ids, info, collection list, listing pages) with the model evaluated by vm_compute on the same history; an independent Python '
         'specification (dictionary of collections + documented status classes) judges the implementation')
 
-NAMES = ['alpha', 'beta', 'g.dat', 'Z_9']          # tokens 1..4
+NAMES = ['alpha', 'beta', 'g.dat', 'Z_9', '.hid']  # tokens 1..5 (the last two are used less often; '.hid': a name that starts with a dot)
 GHOST = 'nosuch'                                   # token 9: never created
 TOK = {n: i + 1 for i, n in enumerate(NAMES)}
 TOK[GHOST] = 9
@@ -40,6 +40,9 @@ class Gen:
         return self.mtok.setdefault(key, len(self.mtok) + 1)
 
     def step(self, method, path, body, model, kind, **kw):
+        if isinstance(body, str) and kind in ('create', 'insert', 'update', 'search') and body[:1] in '[{' and body[-1:] in ']}' and self.rng.random() < 0.12:
+            # more data behind the JSON value: the decoder reads one value, so the request means what that value says
+            body += self.rng.choice([' x', '\n{}', ' []', ' 1', '  '])
         self.steps.append(dict(method=method, path=path, body=body, model=model, kind=kind, **kw))
 
     def pick_name(self):
